@@ -381,7 +381,15 @@ pub enum UnOpKind {
 pub fn parse(s: &str) -> Expr {
     debug!("start parsing expression in `formula`");
     let lexer = Lexer::new(s);
-    Parser { lexer }.expr()
+    let mut parser = Parser { lexer };
+    let expr = parser.expr();
+    // The whole text must be one expression, anything left would be silently ignored otherwise.
+    assert!(
+        parser.lexer.peek().is_none(),
+        "unexpected token after the end of the expression in formula `{}`",
+        s
+    );
+    expr
 }
 
 struct Parser<'a> {
